@@ -79,111 +79,6 @@ func (c *Ctx) forward(fn *ssa.Function, seeds ...ssa.Value) map[ssa.Value]bool {
 	return der
 }
 
-// captureOf: if v derives from parts[k] (k constant) of a FindSubmatch result, returns k.
-func captureOf(v ssa.Value) (int64, bool) {
-	for i := 0; i < 8; i++ {
-		switch x := v.(type) {
-		case *ssa.Convert:
-			v = x.X
-		case *ssa.ChangeType:
-			v = x.X
-		case *ssa.UnOp:
-			if x.Op != token.MUL {
-				return 0, false
-			}
-			v = x.X
-		case *ssa.IndexAddr:
-			k, ok := constInt(x.Index)
-			if !ok {
-				return 0, false
-			}
-			if call, ok := x.X.(*ssa.Call); ok {
-				if f := call.Call.StaticCallee(); f != nil && strings.HasPrefix(origin(f).String(), "(*regexp.Regexp).Find") {
-					return k, true
-				}
-			}
-			return 0, false
-		default:
-			return 0, false
-		}
-	}
-	return 0, false
-}
-
-// RuleCalendarParser: C09.valid on the text parser fn.
-func (c *Ctx) RuleCalendarParser(fn *ssa.Function) {
-	comp := map[int64]ssa.Value{} // capture -> decoded int
-	for _, b := range fn.Blocks {
-		for _, in := range b.Instrs {
-			call, ok := in.(*ssa.Call)
-			if !ok {
-				continue
-			}
-			f := call.Call.StaticCallee()
-			if f == nil || !(f.String() == "strconv.Atoi" || f.String() == "strconv.ParseInt" || f.String() == "strconv.ParseUint") {
-				continue
-			}
-			if k, ok := captureOf(call.Call.Args[0]); ok {
-				for _, r := range *call.Referrers() {
-					if ex, ok := r.(*ssa.Extract); ok && ex.Index == 0 {
-						comp[k] = ex
-					}
-				}
-			}
-		}
-	}
-	if comp[2] == nil || comp[3] == nil {
-		c.add("undecided", "C09.valid", fn, fn.Pos(), "month/day decoding not found")
-		return
-	}
-	// normalising construction fed by month/day
-	var cons *ssa.Call
-	for _, b := range fn.Blocks {
-		for _, in := range b.Instrs {
-			call, ok := in.(*ssa.Call)
-			if !ok {
-				continue
-			}
-			callee := c.StaticCallee(&call.Call)
-			if callee == nil {
-				continue
-			}
-			dm := c.forward(fn, comp[2])
-			dd := c.forward(fn, comp[3])
-			for ai, a := range call.Call.Args {
-				if (dm[a] || dd[a]) && (callee.String() == "time.Date" && (ai == 1 || ai == 2) || c.normalises(callee, ai, 0)) {
-					cons = call
-				}
-			}
-		}
-	}
-	if cons == nil {
-		c.add("discharged", "C09.valid", fn, fn.Pos(), "month/day never reach a normalising constructor")
-		return
-	}
-	fromCons := c.forward(fn, cons)
-	okM, okD := c.guarded(fn, comp[2], fromCons), c.guarded(fn, comp[3], fromCons)
-	// success returns deriving from the construction
-	for _, b := range fn.Blocks {
-		ret, ok := b.Instrs[len(b.Instrs)-1].(*ssa.Return)
-		if !ok || !isNilConst(ret.Results[len(ret.Results)-1]) || !fromCons[ret.Results[0]] {
-			continue
-		}
-		var missing []string
-		if !c.domAny(okM, b) {
-			missing = append(missing, "month")
-		}
-		if !c.domAny(okD, b) {
-			missing = append(missing, "day")
-		}
-		if len(missing) == 0 {
-			c.add("discharged", "C09.valid", fn, ret.Pos(), "success return guarded by round-trip comparison of month and day")
-		} else {
-			c.add("violated", "C09.valid", fn, ret.Pos(), fmt.Sprintf("decoded %s reach%s the normalising constructor %s and the success return without a calendar-validity guard: non-existent days are rolled over instead of rejected", strings.Join(missing, " and "), map[bool]string{true: "es", false: ""}[len(missing) == 1], FnName(c.StaticCallee(&cons.Call))))
-		}
-	}
-}
-
 // guarded returns the continuation blocks of Ifs that compare src (or a conversion of it) for (in)equality with a
 // value derived from the construction, whose mismatch edge is an error return.
 func (c *Ctx) guarded(fn *ssa.Function, src ssa.Value, fromCons map[ssa.Value]bool) []*ssa.BasicBlock {
@@ -769,58 +664,4 @@ func (c *Ctx) dateValueOrigin(v ssa.Value, depth int) string {
 		return "a field/copy of an existing Date"
 	}
 	return ""
-}
-
-// RuleCaptureToArgs: the numeric value decoded from capture want[i] of the sub-match result is what fn passes as
-// argument i of the (single) call to the target function.
-func (c *Ctx) RuleCaptureToArgs(rule string, fn *ssa.Function, target func(*ssa.Function) bool, want []int64, names []string) {
-	comp := map[ssa.Value]int64{}
-	for _, b := range fn.Blocks {
-		for _, in := range b.Instrs {
-			call, ok := in.(*ssa.Call)
-			if !ok {
-				continue
-			}
-			f := call.Call.StaticCallee()
-			if f == nil || !(f.String() == "strconv.Atoi" || f.String() == "strconv.ParseInt" || f.String() == "strconv.ParseUint") {
-				continue
-			}
-			if k, ok := captureOf(call.Call.Args[0]); ok {
-				for _, r := range *call.Referrers() {
-					if ex, ok := r.(*ssa.Extract); ok && ex.Index == 0 {
-						comp[ex] = k
-					}
-				}
-			}
-		}
-	}
-	var calls []*ssa.Call
-	for _, b := range fn.Blocks {
-		for _, in := range b.Instrs {
-			if call, ok := in.(*ssa.Call); ok {
-				if f := c.StaticCallee(&call.Call); f != nil && target(f) {
-					calls = append(calls, call)
-				}
-			}
-		}
-	}
-	if len(calls) != 1 {
-		c.addc("undecided", rule, fn, fn.Pos(), "constructor call", fmt.Sprintf("%d calls to the constructing function found, expected exactly one", len(calls)), "")
-		return
-	}
-	call := calls[0]
-	for i, w := range want {
-		if i >= len(call.Call.Args) {
-			break
-		}
-		k, ok := comp[stripConv(call.Call.Args[i])]
-		switch {
-		case !ok:
-			c.addc("undecided", rule, fn, call.Pos(), names[i], "argument "+names[i]+" is not the plain numeric decoding of a capture group", "")
-		case k != w:
-			c.addc("violated", rule, fn, call.Pos(), names[i], fmt.Sprintf("argument %s is decoded from capture %d, the written %s is capture %d", names[i], k, names[i], w), "")
-		default:
-			c.addc("discharged", rule, fn, call.Pos(), names[i], fmt.Sprintf("argument %s = numeric value of capture %d", names[i], w), "")
-		}
-	}
 }
